@@ -45,6 +45,7 @@ type goErrs struct {
 	S8                             *goja.StackOverflowError
 	names                          []string
 	all                            []error
+	excName                        func(*goja.Exception) string
 }
 
 func newGoErrs() *goErrs {
@@ -74,6 +75,12 @@ func (g *goErrs) byName(n string) error {
 }
 
 func (g *goErrs) name(e error) string {
+	if ex, ok := e.(*goja.Exception); ok {
+		if g.excName != nil {
+			return "x(" + g.excName(ex) + ")"
+		}
+		return "x(?)"
+	}
 	for i, x := range g.all {
 		if sameErr(x, e) {
 			return g.names[i]
@@ -89,6 +96,11 @@ func (g *goErrs) name(e error) string {
 		return "so"
 	case runtime.Error:
 		return "rt"
+	}
+	if strings.HasPrefix(e.Error(), "rfw: ") { // made in flight by an RFW frame
+		if in := errors.Unwrap(e); in != nil {
+			return "w(" + g.name(in) + ")"
+		}
 	}
 	return "?goerr:" + fmt.Sprintf("%T", e)
 }
@@ -127,6 +139,30 @@ const srcJS = `(function(next, log, idx, kind) {
       throw e;
     } finally { log(idx, "f"); }
   };
+  if (kind === "JI") return function ji() {
+    var it = {};
+    it[Symbol.iterator] = function() {
+      var n = 0;
+      return {next: function() { return n++ ? {done: true} : {value: 1, done: false}; },
+              return: function() { log(idx, "r"); return {}; }};
+    };
+    for (var x of it) { next(); }
+  };
+  if (kind === "JG") return function jg() {
+    var g = (function*() { yield 1; next(); })();
+    g.next(); g.next();
+  };
+  if (kind === "JGF") return function jgf() {
+    var g = (function*() { yield 1; try { next(); } finally { log(idx, "f"); } })();
+    g.next(); g.next();
+  };
+  if (kind === "JA") return async function ja() {
+    next();
+  };
+  if (kind === "JAW") return async function jaw() {
+    await null;
+    next();
+  };
 })`
 
 const srcShims = `({
@@ -134,12 +170,14 @@ const srcShims = `({
   prop: function(p) { return function shimGet() { p.x; }; },
   getter: function(callee) { return Object.defineProperty({}, "x", {get: callee}); },
   iterable: function(callee) { var o = {}; o[Symbol.iterator] = function() { return {next: function() { callee(); return {done: true}; }}; }; return o; },
-  promise: function(callee) { return function shimThen() { Promise.resolve().then(callee); }; },
+  promise: function(callee) { return function shimThen() { Promise.resolve().then(function job() { callee(); }); }; },
+  tramp: function(callee) { return function trampoline() { callee(); }; },
   vals: function(G1, G3, G4, G6, E1v) {
     class MyErr extends Error {}
     return {P1: "boom", P2: 42, P3: undefined, P4: null, O1: {tag: 1},
       R1: new Error("r1"), R2: new TypeError("r2"), R3: new MyErr("r3"),
-      G1: G1, G3: G3, G4: G4, G6: G6, V1: {value: E1v}, V2: {value: 42}};
+      G1: G1, G3: G3, G4: G4, G6: G6, V1: {value: E1v}, V2: {value: 42},
+      U1: {toString: function() { throw new Error("inner"); }}, U2: Object.create(null)};
   }
 })`
 
@@ -220,7 +258,7 @@ func (c *caseT) shim(name string, args ...goja.Value) goja.Value {
 	return c.must(f(goja.Undefined(), args...))
 }
 
-var valOrder = []string{"P1", "P2", "P3", "P4", "O1", "R1", "R2", "R3", "G1", "G3", "G4", "G6", "V1", "V2"}
+var valOrder = []string{"P1", "P2", "P3", "P4", "O1", "R1", "R2", "R3", "G1", "G3", "G4", "G6", "V1", "V2", "U1", "U2"}
 
 func (c *caseT) ensureVals() {
 	if c.valsOk {
@@ -295,10 +333,30 @@ func (d *dynObj) Keys() []string                 { return nil }
 func (c *caseT) mkFrame(kind string, idx int, callee goja.Value) goja.Value {
 	r := c.r
 	switch kind {
-	case "J0", "JC", "JR", "JF", "JCF", "JRF":
+	case "J0", "JC", "JR", "JF", "JCF", "JRF", "JI", "JG", "JGF", "JA", "JAW":
 		return c.must(c.jsFac(goja.Undefined(), callee, r.ToValue(c.logFn), r.ToValue(idx), r.ToValue(kind)))
 	case "FC":
 		return r.ToValue(func(call goja.FunctionCall) goja.Value { c.callNext(callee); return goja.Undefined() })
+	case "FCV": // re-raise the VALUE of a caught exception
+		fn, _ := goja.AssertFunction(callee)
+		return r.ToValue(func(call goja.FunctionCall) goja.Value {
+			if _, err := fn(goja.Undefined()); err != nil {
+				if ex, ok := err.(*goja.Exception); ok {
+					panic(ex.Value())
+				}
+				panic(err)
+			}
+			return goja.Undefined()
+		})
+	case "RFW": // return a Go error that wraps whatever the callee failed with
+		fn, _ := goja.AssertFunction(callee)
+		return r.ToValue(func() (goja.Value, error) {
+			v, err := fn(goja.Undefined())
+			if err != nil {
+				return nil, fmt.Errorf("rfw: %w", err)
+			}
+			return v, nil
+		})
 	case "RFE":
 		fn, _ := goja.AssertFunction(callee)
 		return r.ToValue(func() (goja.Value, error) { return fn(goja.Undefined()) })
@@ -500,6 +558,7 @@ func runCase(line string) string {
 		kinds = strings.Split(w[2], ",")
 	}
 	c := &caseT{r: goja.New(), g: newGoErrs(), kinds: kinds}
+	c.g.excName = func(ex *goja.Exception) string { return c.valName(ex.Value()) }
 	r := c.r
 	c.shims = c.must(r.RunProgram(prgShims)).(*goja.Object)
 	c.jsFac, _ = goja.AssertFunction(c.must(r.RunProgram(prgJS)))
@@ -511,6 +570,18 @@ func runCase(line string) string {
 	callee := c.mkThrower(payload)
 	for i := len(kinds) - 1; i >= 0; i-- {
 		callee = c.mkFrame(kinds[i], i, callee)
+	}
+
+	// With a job frame in the chain, a Callable / exported entry goes through a JS trampoline: a native function
+	// called directly from the host runs with an empty call stack, and then the job queue drains inside the first
+	// nested Callable instead of at the entry (where jobs drain is C10's subject; the model drains at the entry).
+	if entry != "RS" {
+		for _, k := range kinds {
+			if k == "PR" || k == "JAW" {
+				callee = c.shim("tramp", callee)
+				break
+			}
+		}
 	}
 
 	var err error
@@ -541,7 +612,7 @@ func runCase(line string) string {
 	}()
 	r.ClearInterrupt()
 
-	host, is, as, top := "ok", "-", "-", "-"
+	host, is, as, top, es, xc := "ok", "-", "-", "-", "-", "-"
 	switch {
 	case panicked:
 		host = "panic(" + c.pvName(pan) + ")"
@@ -565,8 +636,26 @@ func runCase(line string) string {
 		if errors.As(err, &ce) {
 			as = c.g.name(ce)
 		}
+		// does the error's own Error() method return?
+		es = func() (res string) {
+			defer func() {
+				if recover() != nil {
+					res = "panic"
+				}
+			}()
+			_ = err.Error()
+			return "ok"
+		}()
+		// values of all *Exceptions on the errors.Unwrap chain
+		var xs []string
+		for e := err; e != nil; e = errors.Unwrap(e) {
+			if ex, ok := e.(*goja.Exception); ok {
+				xs = append(xs, c.valName(ex.Value()))
+			}
+		}
+		xc = "[" + strings.Join(xs, ",") + "]"
 	}
-	return "host=" + host + " is=" + is + " as=" + as + " top=" + top +
+	return "host=" + host + " is=" + is + " as=" + as + " top=" + top + " es=" + es + " xc=" + xc +
 		" rej=[" + strings.Join(c.rej, ",") + "] log=[" + strings.Join(c.log, ";") + "]"
 }
 
